@@ -1192,6 +1192,7 @@ where
         if P::HAS_MUL {
             ident("a*b=b*a", &a.1, &b.1, &RP::zero(), ab_p.clone(), px.binary(Op::Mul, &one, b, a));
         }
+        ident("(a-b)+b=a", &a.1, &b.1, &RP::zero(), px.binary(Op::Sub, &one, a, b).and_then(|d| px.binary(Op::Add, &one, &d, b)), Some(a.clone()));
         for c in &t_polys {
             tick(C::Triples, 1);
             let bc_s = px.binary(Op::Add, &one, b, c);
@@ -1202,14 +1203,6 @@ where
                 &c.1,
                 ab_s.as_ref().and_then(|s| px.binary(Op::Add, &one, s, c)),
                 bc_s.as_ref().and_then(|s| px.binary(Op::Add, &one, a, s)),
-            );
-            ident(
-                "(a-b)+b=a",
-                &a.1,
-                &b.1,
-                &c.1,
-                px.binary(Op::Sub, &one, a, b).and_then(|d| px.binary(Op::Add, &one, &d, b)),
-                Some(a.clone()),
             );
             if P::HAS_MUL {
                 let bc_p = px.binary(Op::Mul, &one, b, c);
